@@ -85,11 +85,14 @@ void emitString(std::string& out, const std::string& s, Deco& d) {
     else if (c == '\b') out += "\\b"; else if (c == '\f') out += "\\f"; else if (c == '/' && d.on && d.next() % 2) out += "\\/";
     else if (c < 0x20) { snprintf(b, sizeof b, "\\u%04x", c); out += b; }
     else if (c >= 0x80 && d.on && d.next() % 2) {
-      // decode one UTF-8 sequence (the generator only produces valid ones) and emit \u escapes, surrogate pairs above the BMP
+      // decode one UTF-8 sequence and emit \u escapes, surrogate pairs above the BMP
       int len = (c & 0xE0) == 0xC0 ? 2 : (c & 0xF0) == 0xE0 ? 3 : (c & 0xF8) == 0xF0 ? 4 : 1;
       if (len == 1 || i + (size_t)len > s.size()) { out += (char)c; ++i; continue; }
       uint32_t cp = len == 2 ? (c & 0x1F) : len == 3 ? (c & 0x0F) : (c & 0x07);
-      for (int k = 1; k < len; ++k) cp = (cp << 6) | ((unsigned char)s[i + (size_t)k] & 0x3F);
+      bool wellFormed = true;
+      for (int k = 1; k < len; ++k) { unsigned char cc = (unsigned char)s[i + (size_t)k]; if ((cc & 0xC0) != 0x80) wellFormed = false; cp = (cp << 6) | (cc & 0x3F); }
+      // anything that is not one well-formed sequence (cut, over-long, surrogate, beyond U+10FFFF) stays a raw byte
+      if (!wellFormed || cp < (len == 2 ? 0x80u : len == 3 ? 0x800u : 0x10000u) || (cp >= 0xD800 && cp <= 0xDFFF) || cp > 0x10FFFF) { out += (char)c; ++i; continue; }
       if (cp >= 0x10000) { uint32_t v = cp - 0x10000; snprintf(b, sizeof b, "\\u%04X\\u%04x", 0xD800 + (v >> 10), 0xDC00 + (v & 0x3FF)); out += b; }
       else { snprintf(b, sizeof b, "\\u%04x", cp); out += b; }
       i += (size_t)len; continue;
@@ -123,7 +126,8 @@ bool parseExact(const std::string& text, Variant& v, int& line, int& col) {
   return ok;
 }
 
-const char* const STRS[] = {"", "a", "key", "with \"quotes\"", "back\\slash", "line\nbreak", "cr\rlf\r\n", "tab\there", "sl/ash", "\x01\x1f\x7f", "\xc3\xa4\xc3\xb6", "\xe2\x82\xac", "\xf0\x9f\x98\x80", "//not a comment", "/*neither*/", "\\u0041", "\\n", "end\\"};
+const char* const STRS[] = {"", "a", "key", "with \"quotes\"", "back\\slash", "line\nbreak", "cr\rlf\r\n", "tab\there", "sl/ash", "\x01\x1f\x7f", "\xc3\xa4\xc3\xb6", "\xe2\x82\xac", "\xf0\x9f\x98\x80", "//not a comment", "/*neither*/", "\\u0041", "\\n", "end\\",
+                             "\xe2\x80\xa8", "x\xe2\x80\xa9y", "\xe2\x80\xa8\xe2\x80\xa9", "\xe2\x80\xaa", "\xe2\x80\xa7", "\xc2\x85", "\xef\xbb\xbf", "\xe2", "\xe2\x80", "\xed\x9f\xbf\xee\x80\x80"};   // line / paragraph separators and their neighbours, NEL, BOM, cut sequences
 }  // namespace
 
 void pbt_warmup() { Variant v; Json::parse("[1,{\"a\":\"b\"}]", v); (void)Json::toString(v); }
@@ -135,6 +139,12 @@ void pbt_generate(Rng& r, int size, Case& c) {
     for (int k = 0; k < d; ++k) { if (r.chance(50)) c.add("list"); else { c.add("map"); c.add("key", 0, 0, 0, 0, "k"); } }
     c.add("int", 0, 7);
     c.params["cuts"] = 3;
+    return;
+  }
+  if (r.chance(1)) {  // dedicated wide document: a thousand and more small records at a small depth
+    int lv = (int)r.below(3); for (int k = 0; k < lv; ++k) c.add("list");
+    c.add("list"); c.add("records", 0, 900 + (long)r.below(800)); c.add("pop"); c.add("int", 0, 5);
+    c.params["cuts"] = 2;
     return;
   }
   int n = 1 + (int)r.below((uint64_t)size + 1);
@@ -177,6 +187,16 @@ void pbt_run(const Case& cs, Ctx& ctx) {
     else if (nm == "str") { v.t = 4; v.s = d; } else if (nm == "list") v.t = 5; else if (nm == "map") v.t = 6;
     else if (nm == "pop") { if (!open.empty()) open.pop_back(); continue; }
     else if (nm == "key") continue;
+    else if (nm == "records") {   // many small maps appended to the open list
+      if (open.empty()) { ctx.count("skipped"); continue; }
+      JV* parent = resolve(open.back()); if (parent->t != 5) { ctx.count("skipped"); continue; }
+      long cnt = std::max(0L, std::min(2000L, op.a[1]));
+      JV rec; rec.t = 6; JV a; a.t = 2; a.i = 1; JV b; b.t = 4; b.s = "x"; rec.map.emplace_back("a", a); rec.map.emplace_back("b", b);
+      for (long q = 0; q < cnt; ++q) { rec.map[0].second.i = (int)q; parent->items.push_back(rec); }
+      if (cnt >= 1000) ctx.label("records>=1000");
+      if ((int)open.size() + 1 > maxDepth) maxDepth = (int)open.size() + 1;
+      continue;
+    }
     else { ctx.count("unknown_op"); continue; }
     bool container = v.t == 5 || v.t == 6;
     if (open.empty()) {
